@@ -14,6 +14,7 @@ import (
 	"strings"
 	"sync"
 	"sync/atomic"
+	"syscall"
 	"time"
 )
 
@@ -824,7 +825,10 @@ func MinimiseFile(inPath, outPath string) int {
 // runWatchdog guards one run: a library call that never returns (an endless loop in a decoder,
 // say) cannot be interrupted in-process, so the process ends itself with a message the driver's
 // crash isolation understands; the run is then re-executed alone and, if it hangs again, reported
-// as <prop>.fatal (kind "hang"). The limit is generous: ordinary runs take milliseconds.
+// as <prop>.fatal (kind "hang"). The limit is generous - ordinary runs take milliseconds - and is
+// measured in CPU time of this process, so that a machine loaded by other work cannot turn a
+// long but finite run into a "hang"; a wall-clock backstop twelve times as long covers a call
+// that blocks without computing.
 func runWatchdog(prop string, run int) (stop func()) {
 	limit := 300 * time.Second
 	if s := os.Getenv("VERIF_RUN_LIMIT_S"); s != "" {
@@ -832,9 +836,29 @@ func runWatchdog(prop string, run int) (stop func()) {
 			limit = time.Duration(k) * time.Second
 		}
 	}
-	t := time.AfterFunc(limit, func() {
-		fmt.Fprintf(os.Stderr, "fatal error: %s run %d exceeded the per-run time limit of %v\n", prop, run, limit)
-		os.Exit(3)
-	})
-	return func() { t.Stop() }
+	cpu := func() time.Duration {
+		var ru syscall.Rusage
+		if err := syscall.Getrusage(syscall.RUSAGE_SELF, &ru); err != nil {
+			return 0
+		}
+		return time.Duration(ru.Utime.Nano() + ru.Stime.Nano())
+	}
+	start, startWall := cpu(), time.Now()
+	done := make(chan struct{})
+	go func() {
+		tick := time.NewTicker(2 * time.Second)
+		defer tick.Stop()
+		for {
+			select {
+			case <-done:
+				return
+			case <-tick.C:
+				if used := cpu() - start; used > limit || time.Since(startWall) > 12*limit {
+					fmt.Fprintf(os.Stderr, "fatal error: %s run %d exceeded the per-run time limit of %v (CPU time %v, wall %v)\n", prop, run, limit, used.Round(time.Second), time.Since(startWall).Round(time.Second))
+					os.Exit(3)
+				}
+			}
+		}
+	}()
+	return func() { close(done) }
 }
